@@ -858,6 +858,13 @@ func (g *gen) evalCall(env *specEnv, e *SExpr) (Val, error) {
 		return strVal(app("str.from_int", args[0].T)), nil
 	case "isDigits":
 		return boolVal(and(app(">", app("str.len", args[0].T), "0"), app("str.in_re", args[0].T, "(re.+ (re.range \"0\" \"9\"))"))), nil
+	case "bitand":
+		// the same uninterpreted function that the code's own `x & y` on integers is translated to
+		if err := argn(2); err != nil {
+			return Val{}, err
+		}
+		g.declareFun("bit_and", []string{"Int", "Int"}, "Int")
+		return intVal(app("bit_and", args[0].T, args[1].T)), nil
 	case "ite":
 		if err := argn(3); err != nil {
 			return Val{}, err
